@@ -14,6 +14,7 @@ import (
 	"github.com/fatedier/frp/pkg/msg"
 	plugin "github.com/fatedier/frp/pkg/plugin/server"
 	"github.com/fatedier/frp/server/controller"
+	"github.com/fatedier/frp/server/metrics"
 	"github.com/fatedier/frp/server/proxy"
 	"github.com/fatedier/frp/zzverif"
 )
@@ -282,4 +283,27 @@ func (c *zzConn) scriptFirst() msg.Message {
 		return c.script[0]
 	}
 	return nil
+}
+
+// zzMetrics: what the server reports to the dashboard / Prometheus
+type zzMetrics struct {
+	clients, closedClients int
+	proxies, closedProxies int
+}
+
+func (m *zzMetrics) NewClient()                           { m.clients++ }
+func (m *zzMetrics) CloseClient()                         { m.closedClients++ }
+func (m *zzMetrics) NewProxy(string, string)              { m.proxies++ }
+func (m *zzMetrics) CloseProxy(string, string)            { m.closedProxies++ }
+func (m *zzMetrics) OpenConnection(string, string)        {}
+func (m *zzMetrics) CloseConnection(string, string)       {}
+func (m *zzMetrics) AddTrafficIn(string, string, int64)   {}
+func (m *zzMetrics) AddTrafficOut(string, string, int64)  {}
+
+// zzInstallMetrics replaces the global metrics sink for the duration of a harness run
+func zzInstallMetrics() (*zzMetrics, func()) {
+	old := metrics.Server
+	m := &zzMetrics{}
+	metrics.Server = m
+	return m, func() { metrics.Server = old }
 }
